@@ -272,3 +272,49 @@ Theorem C14_bytes_null_chunk_accepted :
          Some [Deactivate].
 Proof. exact ex_null_chunk_accepted. Qed.
 Print Assumptions C14_bytes_null_chunk_accepted.
+
+From SV Require Import Batch.PerType.
+Local Close Scope Z_scope.
+
+(* per-type limits at provider level: every file a successful read of a batch went through met the limit of ITS OWN type, compressed and decompressed (core proof, provisional index, provisional proof, first chunk file); the model is a stateless function, and the harness drives one real provider through the same object in two roles (two_roles cases) *)
+Theorem C14_every_used_file_within_its_own_limit :
+  forall (L : Files.limits) (c : Files.core_index_file) (b : Files.batch_files),
+         Files.get_batch_files L c = Some b ->
+         (forall p : Files.core_proof_file,
+          Files.bf_core_proof b = Some p -> within L (Files.l_proof L) (Files.ci_proof c) p) /\
+         (forall (pi : Files.prov_index_file) (pp : option Files.prov_proof_file)
+            (ch : Files.chunk_file),
+          Files.bf_prov b = Some (pi, pp, ch) ->
+          within L (Files.l_prov_index L) (Files.ci_prov c) pi /\
+          (forall q : Files.prov_proof_file,
+           pp = Some q -> within L (Files.l_proof L) (Files.pi_proof pi) q) /\
+          (exists (k : Files.ref Files.chunk_file) (rest : list (Files.ref Files.chunk_file)),
+             Files.pi_chunks pi = k :: rest /\ within L (Files.l_chunk L) k ch)).
+Proof. exact batch_files_within_limits. Qed.
+Print Assumptions C14_every_used_file_within_its_own_limit.
+
+(* the same for the files below the provisional index *)
+Theorem C14_provisional_files_within_limits :
+  forall (L : Files.limits) (r : Files.ref Files.prov_index_file) 
+           (pi : Files.prov_index_file) (pp : option Files.prov_proof_file) 
+           (ch : Files.chunk_file),
+         Files.get_prov_files L r = Some (pi, pp, ch) ->
+         within L (Files.l_prov_index L) r pi /\
+         (forall q : Files.prov_proof_file,
+          pp = Some q -> within L (Files.l_proof L) (Files.pi_proof pi) q) /\
+         (exists (c : Files.ref Files.chunk_file) (rest : list (Files.ref Files.chunk_file)),
+            Files.pi_chunks pi = c :: rest /\ within L (Files.l_chunk L) c ch).
+Proof. exact prov_files_within_limits. Qed.
+Print Assumptions C14_provisional_files_within_limits.
+
+(* an object larger than the chunk-file limit named as first chunk file makes the read of the batch fail, however generous the other limits are (what the two_roles cases exercise on the real provider) *)
+Theorem C14_oversize_chunk_rejected :
+  forall (L : Files.limits) (r : Files.ref Files.prov_index_file) 
+           (pi : Files.prov_index_file) (c : Files.ref Files.chunk_file)
+           (rest : list (Files.ref Files.chunk_file)) (f : Files.raw Files.chunk_file),
+         Files.read_ref L (Files.l_prov_index L) r = Some pi ->
+         Files.pi_chunks pi = c :: rest ->
+         Files.target c = Some f ->
+         (Files.f_raw_size f > Files.l_chunk L)%Z -> Files.get_prov_files L r = None.
+Proof. exact oversize_chunk_rejected. Qed.
+Print Assumptions C14_oversize_chunk_rejected.
